@@ -79,6 +79,11 @@ def run(e: Engine, rep: Report):
     rep.floor('R3.7', 2, 'release sites of the in-flight mark')
 
 
+# the disposition / dispatch primitives of the queue: events of the rules
+# below, never inlined into the function that calls them
+DISPOSERS = common.QUEUE_PRIMITIVES
+
+
 def attempt_spawns(e: Engine, g) -> List[Node]:
     out = []
     for n in g.nodes:
@@ -94,14 +99,15 @@ def attempt_spawns(e: Engine, g) -> List[Node]:
 
 
 def r31(e: Engine, rep: Report):
-    c = e.p.cls(QUEUE)
+    c = common.merged_class(e, QUEUE)
     total = 0
+    helpers = common.private_helpers(e, QUEUE, DISPOSERS)
     for mname, m in sorted(c.methods.items()):
         ctx = Ctx(m, QUEUE)
-        if not any('_attempt' in ast.unparse(n) for n in walk_own(m.node)
-                   if isinstance(n, ast.Attribute)):
-            continue
-        g = e.build(ctx)
+        if mname in helpers:
+            continue        # seen in the context of each of its callers
+        g = e.build(ctx, inline=e.inline_same_self(deny=DISPOSERS),
+                    max_depth=3)
         spawns = attempt_spawns(e, g)
         if not spawns:
             continue
@@ -176,20 +182,22 @@ def r31(e: Engine, rep: Report):
 
 def _calls_between(g, a: Node, b: Node) -> List[Node]:
     """Call nodes on some path from a to b (exclusive)."""
+    # (paths that come round to `a` again start over: the last test counts)
     fwd = dataflow.reachable(g, a, lambda x, l, s: not isinstance(l, tuple)
-                             and x is not b)
+                             and x is not b and s is not a)
     out = []
     for n in g.nodes:
         if n.id in fwd and n is not a and n is not b and \
                 n.kind in ('call', 'call_enter'):
             if b.id in dataflow.reachable(
-                    g, n, lambda x, l, s: not isinstance(l, tuple)):
+                    g, n, lambda x, l, s: not isinstance(l, tuple) and
+                    s is not a and x is not a):
                 out.append(n)
     return out
 
 
 def r32(e: Engine, rep: Report):
-    c = e.p.cls(QUEUE)
+    c = common.merged_class(e, QUEUE)
     for mname, m in sorted(c.methods.items()):
         writes = []
         for n in walk_own(m.node):
@@ -226,7 +234,8 @@ def r32(e: Engine, rep: Report):
                       'insert', loc=m.loc(w),
                       reason='enumerated writer')
     ctx = e.method_ctx(QUEUE, '_add_queued')
-    g = e.build(ctx)
+    g = e.build(ctx, inline=e.inline_same_self(
+        deny=[x for x in DISPOSERS if x != '_add_queued']), max_depth=3)
     fx = e.facts(g)
     where = ctx.func.qname
     ins = [n for n in g.nodes if n.kind == 'call' and any(
@@ -552,13 +561,15 @@ def r36(e: Engine, rep: Report, rule: str):
 
 # -------------------------------------------------------------------- R3.7
 def r37(e: Engine, rep: Report):
-    c = e.p.cls(QUEUE)
+    c = common.merged_class(e, QUEUE)
     total = 0
+    helpers = common.private_helpers(e, QUEUE, DISPOSERS)
     for mname, m in sorted(c.methods.items()):
-        if 'active_ids' not in ast.unparse(m.node):
-            continue
+        if mname in helpers:
+            continue        # seen in the context of each of its callers
         ctx = Ctx(m, QUEUE)
-        g = e.build(ctx)
+        g = e.build(ctx, inline=e.inline_same_self(deny=DISPOSERS),
+                    max_depth=3)
         rel = [n for n in g.nodes if n.kind == 'call' and
                e.call_name(n) == 'discard' and
                canon(n.ast.func.value, n.frame) == 'self.active_ids'
